@@ -17,11 +17,47 @@ std::thread_local! {
     static LAST_TASK: Cell<u64> = const { Cell::new(u64::MAX) };
 }
 
-// Per simulated task.
+// Per simulated task (shuttle tasks are coroutines, so they need shuttle's own thread_local).
 #[cfg(feature = "shuttle")]
-shuttle::thread_local! { static DEPTH: Cell<usize> = Cell::new(0); }
-#[cfg(not(feature = "shuttle"))]
-std::thread_local! { static DEPTH: Cell<usize> = const { Cell::new(0) }; }
+shuttle::thread_local! { static TASK_DEPTH: Cell<usize> = Cell::new(0); }
+std::thread_local! {
+    static DEPTH: Cell<usize> = const { Cell::new(0) };
+    // true only while the calling OS thread is inside a shuttle execution started by the simulator
+    static SCHEDULING: Cell<bool> = const { Cell::new(false) };
+}
+
+/// Switch scheduling points on or off for this OS thread.  Off (the default) makes every
+/// scheduling point a no-op, so the hooked engine can also be used outside a shuttle execution.
+pub fn set_scheduling(on: bool) {
+    SCHEDULING.with(|s| s.set(on));
+}
+fn scheduling() -> bool {
+    SCHEDULING.with(|s| s.get())
+}
+
+fn depth_enter() -> usize {
+    #[cfg(feature = "shuttle")]
+    if scheduling() {
+        return TASK_DEPTH.with(|d| {
+            let v = d.get() + 1;
+            d.set(v);
+            v
+        });
+    }
+    DEPTH.with(|d| {
+        let v = d.get() + 1;
+        d.set(v);
+        v
+    })
+}
+fn depth_leave() {
+    #[cfg(feature = "shuttle")]
+    if scheduling() {
+        TASK_DEPTH.with(|d| d.set(d.get() - 1));
+        return;
+    }
+    DEPTH.with(|d| d.set(d.get() - 1));
+}
 
 #[cfg(feature = "shuttle")]
 fn task_id() -> u64 {
@@ -33,7 +69,7 @@ fn task_id() -> u64 {
 #[inline]
 pub fn point(_name: &'static str) {
     #[cfg(feature = "shuttle")]
-    {
+    if scheduling() {
         shuttle::thread::sleep(std::time::Duration::ZERO);
         let me = task_id();
         POINTS.with(|p| p.set(p.get() + 1));
@@ -154,11 +190,7 @@ impl<T> From<T> for Arc<T> {
 impl<T> Drop for Arc<T> {
     fn drop(&mut self) {
         point("arc.drop");
-        let d = DEPTH.with(|d| {
-            let v = d.get() + 1;
-            d.set(v);
-            v
-        });
+        let d = depth_enter();
         MAXDEPTH.with(|m| {
             if d > m.get() {
                 m.set(d)
@@ -168,6 +200,6 @@ impl<T> Drop for Arc<T> {
         unsafe {
             ManuallyDrop::drop(&mut self.0);
         }
-        DEPTH.with(|d| d.set(d.get() - 1));
+        depth_leave();
     }
 }
